@@ -146,7 +146,7 @@ def run_histories(jobs):
                         except (S.Hang, S.SchedAbort):
                             raise
                         except Exception as x:
-                            target = 0 if "unknown object" in str(x) else -1
+                            target = 0 if isinstance(x, errors.PyroError) else -1      # refused by the daemon: nobody was reached
                         sc.quiesce()
                         tr.append(dict(ev, target=target if isinstance(target, int) else -1))
                     elif a == "listing":
